@@ -154,6 +154,16 @@ class AbstractDateTime(AnyAtomicType):
     pattern = LazyPattern(r'^$')
 
     @classmethod
+    def validate(cls, value: object) -> None:
+        super().validate(value)
+        if isinstance(value, str):
+            # the pattern does not check the ranges of the fields (month, day of the month, hours, ...)
+            try:
+                cls.fromstring(value)
+            except OverflowError as err:
+                raise cls._invalid_value(value) from err
+
+    @classmethod
     def make(cls, value: Any, **kwargs: Any) -> 'AbstractDateTime':
         match value:
             case UntypedAtomic():
